@@ -55,6 +55,32 @@ def sparse_table(rng, pids, span, rows="shuffled"):
     return [pool[o] for o in order], [-1 if pids[o] == -1 else pool[pids[o]] for o in order], order
 
 
+WORD_BITS = [31, 32, 33, 40, 48, 56]
+
+
+def packed_id_table(rng, pids, bits, rows="shuffled"):
+    """table form with 64-bit ids made of two fields, id = block * 2**bits + local index (a reconstruction cut out of a volume
+    whose node ids carry the block / segment number in the high word): the local indices come from a pool smaller than the table, so
+    they repeat from block to block; the ids are distinct as 64-bit integers — what pandas holds for an integer column and what the
+    parser of read_swc produces — and differ only ABOVE bit `bits` for some pairs of nodes"""
+    n = len(pids)
+    lows = [rng.randint(0, 60) for _ in range(max(1, (n + 2) // 3))]
+    blocks = list(range(0, 5)) if bits <= 33 else [0] + [rng.randint(1, 2 ** (62 - bits) - 1) for _ in range(4)]
+    pool = set()
+    while len(pool) < n:
+        pool.add(rng.choice(blocks) * 2 ** bits + rng.choice(lows))
+        if len(pool) < n and rng.random() < 0.2:
+            pool.add(rng.choice(blocks) * 2 ** bits + rng.randint(0, 60))
+    pool = list(pool)
+    rng.shuffle(pool)
+    order = list(range(n))
+    if rows == "shuffled":
+        rng.shuffle(order)
+    else:
+        order.sort(key=lambda o: pool[o], reverse=(rows == "by-id-desc"))
+    return [pool[o] for o in order], [-1 if pids[o] == -1 else pool[pids[o]] for o in order], order
+
+
 def wide_parents(rng, n, kind):
     """trees with a wide generation: a soma with many stems (bare, or each carrying a little subtree), a bush whose second
     generation is wide, besides gen's star / binary / highdeg"""
@@ -89,7 +115,9 @@ def pick_alias(rng, nx, k):
 def sort_case(rng, n, shape, form, span=None, rows="shuffled", storage="own", k=0):
     pids = wide_parents(rng, n, shape) if shape in ("stems", "bush") else gen.parents_sorted(rng, n, shape)
     n = len(pids)
-    if form == "table" and span:
+    if form == "table" and isinstance(span, int):
+        ids, pp, order = packed_id_table(rng, pids, span, rows)
+    elif form == "table" and span:
         ids, pp, order = sparse_table(rng, pids, span, rows)
     elif form == "table":
         ids, pp, order = gen.table_form(rng, pids)
@@ -110,6 +138,9 @@ def sort_case(rng, n, shape, form, span=None, rows="shuffled", storage="own", k=
             "ids": ids, "pids": pp, "key": list(range(100, 100 + n)),
             "types": [rng.randint(0, 7) for _ in range(n)], "r": [rng.randint(1, 40) / 8 for _ in range(n)],
             "extra": [[rng.randint(-50, 50) / 4 for _ in range(n)] for _ in range(nx)], "form": form}
+    if form == "table" and isinstance(span, int):
+        case["idtype"] = "int64"
+        case["class"] = f"{shape}/table/ids-int64-word{span}"
     if form != "table" and storage != "own":
         # how the tree object holds its columns (the property speaks of the columns, not of their storage)
         case["storage"] = storage
@@ -610,6 +641,14 @@ class SortSuite(Suite):
                 kinds = [kind] + ([XKINDS[(j // 2) % len(XKINDS)]] if j % 3 == 0 else [])
                 out.append(add_missing_columns(rng, c, kinds, XWHERE[j % len(XWHERE)]))
                 j += 1
+        # 64-bit ids: the id / pid columns of a table are int64 (pandas' integer dtype, what the parser of read_swc builds) and the numbering
+        # packs a block number above bit 31 / 32 / 33 / 40 / 48 / 56 — distinct ids whose low words repeat; table and file forms
+        j = 0
+        for rep in range(2 if quick else 8):
+            for bits in WORD_BITS:
+                n = rng.choice([4, 6, 9, 14, 22] if quick else [4, 6, 9, 14, 22, 40, 90])
+                out.append(sort_case(rng, n, gen.pick_shape(rng, j + rep), "table", span=bits, rows=["shuffled", "by-id", "by-id-desc"][j % 3]))
+                j += 1
         # tables with a history: an earlier result of sort_nodes / sort_nodes_ / read_swc(sort_nodes=True), renumbered / shuffled /
         # re-rooted / copied with ordinary pandas steps, sorted again
         for j in range(30 if quick else 120):
@@ -664,8 +703,9 @@ class SortSuite(Suite):
         from swcgeom.core.swc_utils import SWCNames, is_sorted, read_swc, sort_nodes, sort_nodes_, sort_nodes_impl
         from swcgeom.core.tree_utils import sort_tree
 
-        ids = np.array(case["ids"], dtype=np.int32)
-        pids = np.array(case["pids"], dtype=np.int32)
+        idt = {"int64": np.int64}.get(case.get("idtype"), np.int32)  # the id / parent columns of a table: int32, or what pandas holds (int64)
+        ids = np.array(case["ids"], dtype=idt)
+        pids = np.array(case["pids"], dtype=idt)
         n = len(ids)
         res = {}
         # the caller's column names: N maps the standard field to the column that holds it; kw is handed to every entry point that takes it
@@ -988,7 +1028,8 @@ class SortSuite(Suite):
 
 
 SUITES = [SortSuite()]
-FAMILIES = ("input families of the oracle suite beyond shape x numbering x column storage: extra columns of every pandas kind with missing entries "
+FAMILIES = ("input families of the oracle suite beyond shape x numbering x column storage: tables / files whose id and parent columns are 64-bit "
+            "(int64, ids = block * 2**b + local index for b = 31..56: distinct ids whose low words repeat); extra columns of every pandas kind with missing entries "
             "(NaN / None / NA / NaT; tables and tree objects); tables with a history (an earlier result of sort_nodes / sort_nodes_ / "
             "read_swc(sort_nodes=True) renumbered, shuffled, re-rooted, copied by ordinary pandas steps and sorted again); the caller's own column names "
             "(names=SWCNames(...) with id / pid / payload fields renamed, random names, and extra columns that are merely CALLED id / pid) through "
